@@ -801,6 +801,23 @@ func (x *Exec) evalCall(env *SpecEnv, e ECall) Val {
 		return Val{T: mkIte(lt, b.T, a.T), Typ: a.Typ}
 	}
 	switch e.Fun {
+	case "addr":
+		// addr(s[i]): the pointer value &s[i] (the same opaque reference the code gets
+		// when the address of a slice element escapes)
+		ix, ok := e.Args[0].(EIndex)
+		if !ok {
+			panic(specErr("addr(): argument must be an element s[i]"))
+		}
+		base := x.evalVal(env, ix.X)
+		sl, isSlice := base.Typ.Underlying().(*types.Slice)
+		if !isSlice {
+			panic(specErr("addr(): %s is not a slice", ix.X.exprString()))
+		}
+		i := x.coerce(x.evalVal(env, ix.I), types.Typ[types.Int])
+		a := x.elemAddr(base.T, x.toIdx(i.T, i.Typ), sl.Elem())
+		fn := "elemptr$" + x.S.typeTag(a.RootT)
+		x.declUF(fn, fmt.Sprintf("(Int %s) Int", x.S.Idx()))
+		return Val{T: Term{app(fn, a.Ref, a.Idx), "Int"}, Typ: types.NewPointer(sl.Elem())}
 	case "locked", "rlocked", "unlocked":
 		// ghost state of a mutex field: held exclusively / held at least shared / not held
 		held := x.lockStateOf(env, e.Args[0])
